@@ -95,6 +95,8 @@ impl<T> InnerQueue<T> {
                 return Err(TryRecvError::Empty);
             }
             // there is no sender any more, so every message has been posted: re-check
+            #[cfg(may_verif)]
+            crate::verif::pt("mpmc.try.rewait", crate::verif::addr(self), 0, 0);
             if !self.sem.try_wait() {
                 return Err(TryRecvError::Disconnected);
             }
